@@ -703,15 +703,18 @@ impl FdlActiveStation {
             current_address + 1
         };
 
-        if next_address >= next_station && next_station > self.p.address {
-            // We have reached the end of the GAP, enter waiting state.
+        if (next_address >= next_station || next_address <= self.p.address)
+            && next_station > self.p.address
+        {
+            // We have reached the end of the GAP, enter waiting state.  This includes the
+            // situation where NS is the last address below HSA and we wrapped around to 0.
             GapState::Waiting { rotation_count: 0 }
         } else if next_address == next_station && next_station == self.p.address {
             // We have reached the end of the GAP, enter waiting state (NS==TS case).
             GapState::Waiting { rotation_count: 0 }
         } else if next_address >= next_station
             && next_station < self.p.address
-            && next_address < self.p.address
+            && next_address <= self.p.address
         {
             // We have reached the end of the GAP, enter waiting state (wrap-around GAP case).
             GapState::Waiting { rotation_count: 0 }
